@@ -317,7 +317,7 @@ func TestWorker(t *testing.T) {
 	if st, err := os.Stat("/dev/shm"); err == nil && st.IsDir() && os.Getenv("VERIF_SCRATCH_ON_DISK") == "" {
 		base = "/dev/shm"
 	}
-	dir, err := os.MkdirTemp(base, "verif-zsim-scratch")
+	dir, err := os.MkdirTemp(base, "verif-zsim-scratch-"+os.Getenv("VERIF_SCRATCH_TAG")+"-")
 	if err != nil {
 		dir, err = os.MkdirTemp(filepath.Dir(job.Out), "scratch")
 	}
